@@ -172,9 +172,11 @@ fn c11_partition(n: usize, p: &Part, rep: &mut Report) -> Vec<String> {
             if cp.num_classes() != nc {
                 msgs.push(format!("{}: num_classes() = {}, expected {}", how, cp.num_classes(), nc));
             }
+            // the classes listed must be exactly the non-empty ones (the order of the listing is not prescribed)
             let ids: Vec<ClassId> = cp.class_ids().collect();
-            if ids != exp_ids {
-                msgs.push(format!("{}: class_ids() = {:?}, expected {:?}", how, ids, exp_ids));
+            let same_ids = ids.len() == exp_ids.len() && exp_ids.iter().all(|e| ids.iter().filter(|x| *x == e).count() == 1);
+            if !same_ids {
+                msgs.push(format!("{}: class_ids() = {:?}, expected the classes {:?}", how, ids, exp_ids));
             }
             for cid in [ClassId::Interval(0), ClassId::Interval(p.len().saturating_sub(1)), ClassId::Interval(p.len()), ClassId::Interval(p.len() + 3), ClassId::Interval(usize::MAX), ClassId::Complement] {
                 let exp = exp_ids.contains(&cid);
@@ -182,16 +184,12 @@ fn c11_partition(n: usize, p: &Part, rep: &mut Report) -> Vec<String> {
                     msgs.push(format!("{}: valid_class_id({}) = {}, expected {}", how, cid, cp.valid_class_id(cid), exp));
                 }
             }
-            // picks: one per non-empty class, each in its class, in class order
+            // picks: exactly one character of every non-empty class
             let picks: Vec<u32> = cp.picks().collect();
-            if picks.len() != nc {
-                msgs.push(format!("{}: picks() yields {} characters for {} classes", how, picks.len(), nc));
-            } else {
-                for (k, &c) in picks.iter().enumerate() {
-                    if class_of(c) != exp_ids[k] {
-                        msgs.push(format!("{}: picks()[{}] = {} lies in class {}, expected class {}", how, k, c, class_of(c), exp_ids[k]));
-                    }
-                }
+            let pick_classes: Vec<ClassId> = picks.iter().map(|&c| class_of(c)).collect();
+            let one_each = picks.len() == nc && exp_ids.iter().all(|e| pick_classes.iter().filter(|x| *x == e).count() == 1);
+            if !one_each {
+                msgs.push(format!("{}: picks() = {:?} lie in classes {:?}; expected one character of each of {:?}", how, picks, pick_classes, exp_ids));
             }
             for &cid in &exp_ids {
                 let c = cp.pick_in_class(cid);
@@ -322,11 +320,7 @@ fn c11_list(n: usize, l: &[(usize, usize)]) -> Option<String> {
                     return Some(format!("try_from_list({:?}) = {} is not the sorted list of the intervals", raw(&us, &l.to_vec()), p));
                 }
             }
-            if let Err(e) = CharPartition::try_from_list(&sets) {
-                if e != aws_smt_strings::errors::Error::NonDisjointCharSets {
-                    return Some(format!("try_from_list fails with {:?}, expected NonDisjointCharSets", e));
-                }
-            }
+            // which error is returned for overlapping input is not part of the statement
             None
         }
     }
@@ -384,8 +378,11 @@ fn c11_long(len: usize, pat: u32, rep: &mut Report) -> Option<String> {
                 return Some(format!("{}: num_classes/complement witness wrong for {} intervals (witness {})", name, len, p.pick_complement()));
             }
             let picks: Vec<u32> = p.picks().collect();
-            if picks.len() != len + 1 || picks.iter().enumerate().any(|(k, &c)| class(c) != if k < len { ClassId::Interval(k) } else { ClassId::Complement }) {
-                return Some(format!("{}: picks() of a {}-interval partition are not one per class in order", name, len));
+            let mut pc: Vec<String> = picks.iter().map(|&c| format!("{}", class(c))).collect();
+            pc.sort();
+            pc.dedup();
+            if picks.len() != len + 1 || pc.len() != len + 1 {
+                return Some(format!("{}: picks() of a {}-interval partition are not one per class", name, len));
             }
             // every character from 0 to just after the last interval, plus the alphabet border
             for c in (0..=last + 5).chain([M - 1, M]) {
@@ -1152,11 +1149,17 @@ fn c15_big(r: R, s: R) -> Option<String> {
         if let Some(h) = ehi {
             hull_ok &= m.contains(h as u32) && (h >= u32::MAX as u128 || !m.contains(h as u32 + 1));
         }
+        // mul must contain every product (in particular the extreme ones); exactness means the union equals the
+        // interval mul returns, i.e. the union is gap-free and mul is exactly its hull
+        let mut products_ok = m.contains(elo as u32);
+        if let Some(h) = ehi {
+            products_ok &= m.contains(h as u32);
+        }
+        if !products_ok {
+            return Some(format!("{}.mul({}) = {} does not contain the extreme products {} / {:?}", show_r(r), show_r(s), m, elo, ehi));
+        }
         let exp = closed_form_exact(r, s) && hull_ok;
         let got = x.right_mul_is_exact(&y);
-        if !hull_ok {
-            return Some(format!("{}.mul({}) = {} is not the hull [{}, {:?}] of the products", show_r(r), show_r(s), m, elo, ehi));
-        }
         (got != exp).then(|| format!("{}.right_mul_is_exact({}) = {}, but the union over y of [y*{}, y*b] {} a gap", show_r(r), show_r(s), got, r.0, if exp { "has no" } else { "has" }))
     });
     match res {
